@@ -50,6 +50,23 @@ def _or_delta(fa, v, t, depth):
     return None
 
 
+def or_update_sites(fa, t, v=None, pb=None, depth=0):
+    """[(block the update arrives from, d)] for every operand BitOr(t, d) of the accumulator phi t (through inner phis)"""
+    out = []
+    if v is None:
+        for qb, w in fa.phi_operands(t):
+            out.extend(or_update_sites(fa, t, w, qb, depth + 1))
+        return out
+    if depth > 5 or v is t:
+        return out
+    if v.op == "bin" and v.args[0] == "BitOr" and (v.args[1] is t or v.args[2] is t):
+        return [(pb, v.args[2] if v.args[1] is t else v.args[1])]
+    if v.op == "phi":
+        for qb, w in fa.phi_operands(v):
+            out.extend(or_update_sites(fa, t, w, qb, depth + 1))
+    return out
+
+
 def err_returns(f, fa):
     out = []
     for b in sorted(f.reachable()):
@@ -204,6 +221,24 @@ def _encode_rules(prog, res, f):
         return ok, dd
     ok, dd = dup_guard("DuplicateSatellite", lambda bit, acc: acc is sat_acc and is_bit(bit, 64) is not None)
     res.ob("M-guards", "%s | DuplicateSatellite is decided by (satellite bit & satellite mask so far) != 0" % tag, ok, dd, loc)
+
+    def dup_excluded(acc):
+        """the converse: a bit is OR-ed into the accumulator only where (bit & accumulator) == 0 is established, so a repeated bit cannot pass silently"""
+        sites = or_update_sites(fa, acc) if acc.op == "phi" else []
+        if not sites:
+            return False, "no update sites"
+        for pb, d in sites:
+            hit = False
+            for g in fa.guards(pb):
+                fc = fact_of_guard(g)
+                if fc[0] in ("Le", "Eq") and is_const(fc[2]) and const_val(fc[2]) == 0 and fc[1].op == "bin" and fc[1].args[0] == "BitAnd" \
+                        and ((fc[1].args[1] is d and fc[1].args[2] is acc) or (fc[1].args[2] is d and fc[1].args[1] is acc)):
+                    hit = True
+            if not hit:
+                return False, "the update by %s (arriving from bb%d) is not dominated by the test (bit & mask) == 0" % (show(d, names)[:80], pb)
+        return True, "%d update site(s)" % len(sites)
+    ok, dd = dup_excluded(sat_acc)
+    res.ob("M-guards", "%s | a satellite bit is added to the mask only after (bit & mask so far) == 0" % tag, ok, dd, loc)
     # --- SatelliteMismatch: Ne(sat_acc, satsig_acc)
     ok = False
     dd = ""
@@ -291,6 +326,8 @@ def _encode_rules(prog, res, f):
     res.ob("M-cell", "%s | cell index = rank(satellite) * signal count + rank(signal) (row-major)" % tag, okidx, dd, loc, sample=dd)
     ok, dd = dup_guard("DuplicateSatelliteSignal", lambda bit, acc: acc is cell_acc)
     res.ob("M-guards", "%s | DuplicateSatelliteSignal is decided by (cell bit & cell mask so far) != 0" % tag, ok, dd, loc)
+    ok, dd = dup_excluded(cell_acc)
+    res.ob("M-guards", "%s | a cell bit is added to the cell mask only after (bit & mask so far) == 0" % tag, ok, dd, loc)
     # --- rank tables: sat_indx[i] = counter when bit (63 - i) of the mask is set, counter += 1 (ascending loops)
     _rank_rule(res, f, fa, iv, tag, sat_acc, 64, loc)
     _rank_rule(res, f, fa, iv, tag, sig_acc, 32, loc)
